@@ -44,6 +44,13 @@ def run(ctx):
             labels.append(f"{os.path.basename(f)}/perturbed")
             lines.append(f"c02.run load:{f} {rng.choice(['raw', 'default'])} interleave")
             labels.append(f"{os.path.basename(f)}/interleaved")
+        # constructed models the samples do not contain: unreferenced block chains stored children-before-parents (what pruning
+        # has to remove in ONE save), paths the loader rewrites
+        wd = filecamp.workdir(ctx, "c02")
+        for lab, p in filecamp.constructed_inputs(ctx, wd):
+            for mode in ("raw", "default"):
+                lines.append(f"c02.run load:{p} {mode}")
+                labels.append(f"{lab}/{mode}")
         vers = ["ob", "fo3", "sk", "sse", "fo4", "fo4_132", "fo4_139", "fo76"]
         for ver in vers:
             for nv, nt in [(3, 1), (17, 30), (120, 200)]:
@@ -96,14 +103,24 @@ def run(ctx):
             bad.append((label, line, "a query answers differently after a save: " + o.split("queries=CHANGED ")[1][:300]))
     bad.sort(key=lambda b: len(b[1]))
     for j, (label, line, why) in enumerate(bad[:3]):
+        if not ctx.replay and wd in line:
+            # a constructed input: keep the file with the replay
+            import shutil
+            src = next(x[5:] for x in line.split(" ") if x.startswith("load:"))
+            os.makedirs(C.REPLAYS, exist_ok=True)
+            keep = os.path.join(C.REPLAYS, f"C02-input-{j}.nif")
+            shutil.copy(src, keep)
+            line = line.replace(src, keep)
         res.violation(f"oracle-{j}", dict(what=why, label=label, line=line))
+    if not ctx.replay:
+        filecamp.cleanup(wd)
     rows, paths = ctx.writemut
     res.coverage.update(
         evaluations=len(lines), distinct_nontrivial=nontrivial, traces_validated_against_impl=nontrivial,
         rule="three consecutive saves of one NifFile object per input, outputs compared byte for byte, query battery before/after each "
              "save; inputs: every sample file (raw, default, and perturbed: arbitrary positions/UVs, tangents, match groups), meshes built "
              "through the API in 8 versions × 3 sizes × normals/colours × skinned or not, generated instances of every registered block "
-             "type × 12 versions",
+             "type × 12 versions, constructed models with unreferenced block chains stored children-before-parents",
         not_synthesised=skipped, oracle_failures=len(bad),
         write_mutation_sites=len(rows), write_paths=len(paths),
         unmodelled_sites=[" :: ".join([r["cls"], r["fn"], r["text"]]) for r in rows if r["kind"] == 9],
